@@ -26,6 +26,7 @@ import types as _types
 _sys.modules.setdefault("simworld", _types.ModuleType("simworld"))
 
 ATYPES = {"np": np.ndarray, "duck": Duck, "mduck": MDuck, "any": typing.Any}
+PY_SCALARS = {"float": float, "int": int, "bool": bool}
 BUILTIN_TYPES = {"int": int, "str": str, "any": typing.Any, "leaf": Leaf, "float": float, "none": type(None)}
 
 
@@ -144,7 +145,13 @@ class World:
         if k == "arr":
             cat = struct_category(spec["dtype"]) if spec["dtype"].startswith("Struct") else getattr(jaxtyping, spec["dtype"])
             at = spec["atype"]
-            base = self.ann(at[1:]) if at.startswith("@") else ATYPES[at]
+            if "+" in at:
+                # Dtype[Union[array type, Python scalar type], dims]: jaxtyping distributes over the union and keeps the scalar type
+                # itself iff every axis is a multi-axis specifier and the category has a dtype of that kind
+                a0, s0 = at.split("+")
+                base = typing.Union[ATYPES[a0], PY_SCALARS[s0]]
+            else:
+                base = self.ann(at[1:]) if at.startswith("@") else ATYPES[at]
             if spec.get("split") is not None:
                 # the documented alternative spelling: Outer[Inner[T, "h w"], "3"] means (Outer and Inner)["3 h w"]; the spec (and
                 # hence the model) describes the flat equivalent, the object under test is built in the nested form
@@ -350,6 +357,8 @@ def build_value(v, frame=None, memo=None):
         return v["v"]
     if t == "float":
         return float(v["v"])
+    if t == "py":
+        return {"float": 1.5, "int": 3, "bool": True}[v["k"]]
     if t == "none":
         return None
     if t == "leaf":
@@ -487,6 +496,9 @@ class Interp:
         ann = self.world.ann(op["ann"])
         val = build_value(op["val"], self._frame())
         try:
+            if typing.get_origin(ann) is typing.Union:
+                # (isinstance on a typing.Union goes through issubclass; a typechecker tries the members one by one, as here)
+                return any([bool(isinstance(val, m)) for m in typing.get_args(ann)][:])
             return bool(isinstance(val, ann))
         except BaseException as e:
             return exc_outcome(e)
